@@ -178,6 +178,10 @@ for l in (2, 3, 4, 5):
        bound="one next_lexeme() call from EVERY lexer state (position <= %d, nesting depth 0..999) on every %d-byte buffer: "
              "produced byte / end-of-string, consumed length and nesting depth vs the reference step (inductive step of the "
              "literal-string decoder)" % (l, l))
+ob("strlex_raw_cr_as_written", ["C04"], "strlex.rs", unwind=8, cuts=X1_ALL, stubs=[FMT_STUB], timeout=1200, mem_gb=12,
+   unwindset=[(r"StringLexer::<'_>::next_lexeme$", None, 1)], functions=SLFN + ["primitive::PdfString::serialize"],
+   bound="writer probed on the one-byte string 0D; reader: one next_lexeme() call at a raw CR from every position of every 3-byte "
+         "buffer and nesting depth 0..999: if the writer emits CR raw the reader returns CR and consumes one byte")
 ob("strlex_lit_step_cont0_l3", ["C03"], "strlex.rs", unwind=5, cuts=X1_ERR, stubs=[FMT_STUB], tier="quick", timeout=1500, mem_gb=16,
    unwindset=[(r"StringLexer::<'_>::next_lexeme$", None, 2), (r"verif_h_strlex::lit_step_ref::<", 0, 5)], functions=SLFN,
    bound="one next_lexeme() call at position 0 of a 3-byte buffer that starts with a line continuation (backslash + CR / LF / CRLF), "
@@ -296,6 +300,40 @@ ob("font_widths_get", ["C19"], "font.rs", unwind=6, timeout=600, functions=["fon
 ob("font_widths_commute", ["C19"], "font.rs", unwind=16, timeout=1200, mem_gb=12, functions=WFN,
    bound="5 concrete (first_char, len, code a, code b) shapes; both insertion orders give the same table")
 
+ob("font_widths_group_shapes", ["C19"], "font.rs", unwind=16, timeout=1200, mem_gb=12, functions=WFN + ["font::Widths::set"],
+   bound="6 concrete (first_char, len, group start, group length) shapes; one array-form /W group applied as Font::widths does "
+         "(ensure_cid, then set per element); entries/default/widths over all u16 values; every queried code 0..=14")
+
+# ---------------------------------------------------------------------------------------------------------------------
+# object/function.rs: C14 / C01 (numeric extremes in PostScript calculator and sampled functions)
+# ---------------------------------------------------------------------------------------------------------------------
+PSFN = ["object::function::PsFunc::exec", "object::function::PsFunc::exec_inner"]
+for l_ in (0, 1, 2, 3):
+    ob("func_ps_ops_l%d" % l_, ["C14", "C01"], "func.rs", unwind=8, cuts=X1_ERR, stubs=[FMT_STUB], timeout=900, mem_gb=12, functions=PSFN,
+       bound="stack of %d arbitrary f32 values; dup exch add sub mul abs pop cvr, integer and real literals with arbitrary values; "
+             "wrong output length" % l_)
+for l_ in (0, 2, 3):
+    ob("func_ps_index_l%d" % l_, ["C14", "C01"], "func.rs", unwind=8, cuts=X1_ERR, stubs=[FMT_STUB], timeout=900, mem_gb=12, functions=PSFN,
+       bound="stack of %d arbitrary f32 values, 'n index' for every f32 n" % l_)
+for l_ in (1, 2, 3):
+    ob("func_ps_roll_l%d" % l_, ["C14", "C01"], "func.rs", unwind=12, cuts=X1_ERR, stubs=[FMT_STUB], timeout=900, mem_gb=12, functions=PSFN,
+       bound="stack of %d arbitrary f32 values, 'n j roll' for every concrete n in 0..=%d and j in -%d..=%d" % (l_, l_, l_ + 1, l_ + 1))
+for l_ in (0, 2):
+    ob("func_ps_roll_hostile_l%d" % l_, ["C14", "C01"], "func.rs", unwind=8, cuts=X1_ERR, stubs=[FMT_STUB], timeout=900, mem_gb=12, functions=PSFN,
+       bound="stack of %d values, 'n j roll' for every f32 n >= %d and every f32 j: an error" % (l_, l_ + 1))
+ob("func_ps_roll_degenerate", ["C14", "C01"], "func.rs", unwind=8, cuts=X1_ERR, stubs=[FMT_STUB], timeout=900, mem_gb=12, functions=PSFN,
+   bound="stack of 2 values, 'n j roll' for every f32 n that is not positive (negative, zero, NaN) and every f32 j: no panic")
+ob("func_sampled_1d_total", ["C14", "C01"], "func.rs", unwind=8, cuts=X1_ERR, stubs=[FMT_STUB], timeout=900, mem_gb=12,
+   functions=["object::function::SampledFunction::apply", "object::function::SampledFunctionInput::map", "object::function::SampledFunctionOutput::map"],
+   bound="1 input, 1 output, 4 sample bytes; every f32 /Domain, /Encode, /Decode, every u32 /Size, every f32 argument: no panic")
+
+ob("font4_write_cid", ["C19"], "font4.rs", unwind=8, timeout=900, mem_gb=16, functions=["font::write_cid"],
+   bound="every u16 code: the token written is '<' + 4 upper-case big-endian hex digits + '>'")
+ob("font4_parse_cid", ["C19"], "font4.rs", unwind=6, cuts=X1_ALL, stubs=[FMT_STUB], timeout=600, functions=["font::parse_cid"],
+   bound="every code string of 0..=3 bytes: 1 byte as is, 2 bytes big endian, otherwise an error")
+ob("font4_write_unicode_bmp", ["C19"], "font4.rs", tier="infeasible", unwind=8, timeout=900, mem_gb=16, functions=["font::write_unicode"],
+   bound="every one-character ASCII text: '<00HH>'")
+
 for h in ("object_opt_i32_dangling", "object_opt_name_dangling", "object_opt_bool_dangling", "object_opt_f32_dangling",
           "object_opt_rect_dangling", "object_opt_rcref_dangling", "object_opt_mayberef_dangling", "object_opt_nested_required"):
     ob(h, ["C18"], "object.rs", unwind=6, cuts=X1_ALL + ["std::sync::Arc<error::PdfError>"], stubs=[FMT_STUB], timeout=900, mem_gb=12,
@@ -397,6 +435,13 @@ ob("enc_a85_enc_tail3_after_group", ["C16"], "enc.rs", unwind=12, cuts=X1_ERR, t
    functions=["enc::encode", "enc::encode_85", "enc::base85_chunk"],
    bound="input = concrete full group 01 02 fe ff, then 41 42 t with t symbolic (3-byte tail, four digits written): output accepted by "
          "the reference decoder with the input as result")
+for h_, b_ in (("enc_a85_enc_zero_then_word", "00 00 00 00 41 42 43 t"), ("enc_a85_enc_word_then_zero", "41 42 43 t 00 00 00 00"),
+               ("enc_a85_enc_zero_zero_word_tail", "two zero words, fe ff 01 t, tail byte t")):
+    ob(h_, ["C16"], "enc.rs", unwind=22, cuts=X1_ERR, timeout=1800, mem_gb=12,
+       tier="quick" if h_ == "enc_a85_enc_zero_then_word" else "thorough",
+       functions=["enc::encode", "enc::encode_85", "enc::base85_chunk"],
+       bound="input = %s with t symbolic (the all-zero shorthand next to ordinary words): output accepted by the reference decoder "
+             "with the input as result" % b_)
 FLFN = ["enc::flate_decode", "enc::inflate_bytes_zlib", "enc::inflate_bytes", "enc::unfilter", "enc::PredictorType::from_u8"]
 for t_ in (5, 4, 2):
     ob("enc_flate_ragged_t%d" % t_, ["C01", "C05", "C14"], "enc.rs", unwind=12, cuts=X1_ERR, stubs=[FMT_STUB], timeout=1800, mem_gb=12,
